@@ -612,6 +612,9 @@ func (b *builder) edge() {
 		mkFunc("Edge2", "f", "edge", structT("Edge", "N1"), Param{Name: "pa", Type: structT("Edge2", "Y")}, Param{Name: "pb", Out: true, Type: enumT("Edge", "Neg")}),
 	}})
 	b.newModule(f, "Edge3") // empty module: no output expected
+	// a module whose only reference to another module sits inside a fixed array
+	m4 := b.newModule(f, "Edge4")
+	b.addStruct(m4, "ArrOther", "edge", "struct:array-of-other-module-struct", mem("Edge4", 0, false, "f", arr(structT(baseMod, "Inner"), 2), nil))
 }
 
 // small representative files, one per construct; every byte/token prefix and
